@@ -32,6 +32,7 @@ ASSUMPTIONS = ["variable values are valid UTF-8 (they may contain '$' and refere
                "the temp root during the call",
                "paths are valid UTF-8 without NUL; no generated component is '.', '..' or longer than 255 bytes",
                "FixedWindowRoller substitutes '{}' before expanding (the substituted text is what the model receives)"]
+SETUP_FEATURE_BUILDS = ["background_rotation"]   # background_build_checks
 RELEASE_TOO = True          # the cases also run through the release-profile harness (see ./check)
 EXHAUSTIVE = {"quick": False, "thorough": False}
 TRUSTED = ["char::is_alphanumeric beyond ASCII is an oracle: the harness reports the real classification of the case's "
@@ -410,7 +411,37 @@ def extra_checks(ctx, cases_, impl_lines, model_lines_):
     """"the fixed-window roller creates its files at the expanded location" - at every roll, also when somebody removed
     the archive directory in between or the variables changed (C07's histories with $ENV patterns, environment changes
     and removed directories)"""
+    res = background_build_checks(ctx, cases_, impl_lines)
+    if res:
+        return res
     from gen import xcheck
     return xcheck.borrow(ctx, "C07", "archives are created at the expanded location at every roll",
                          lambda c: any(isinstance(o, list) and o and o[0] in (2, 3) for o in c[8]) or "$ENV" in str(c[4]),
                          n=250, seed_salt=37)
+
+
+def background_build_checks(ctx, cases_, impl_lines):
+    """the crate built with `background_rotation`: the roller's cases (site 2) again - the feature changes WHEN the
+    archives are moved, not where they go: same files as the default build (where that one rolled without error)"""
+    vc = ctx["vc"]
+    idx = [i for i, c in enumerate(cases_) if c[0] == 2]
+    if not idx:
+        return []
+    exe = vc.build_harness("c19", features="background_rotation")
+    lines = [vc.show(cases_[i]) for i in idx]
+    got = vc.run_lines([exe], lines, timeout_per_batch=600)
+    compared = 0
+    for i, ln, g in zip(idx, lines, got):
+        try:
+            sync, bg = vc.parse(impl_lines[i]), vc.parse(g)
+        except Exception:
+            continue
+        if not (isinstance(sync, list) and len(sync) == 2 and isinstance(sync[1], list) and sync[1] and sync[1][0] == 3):
+            continue
+        compared += 1
+        if bg != sync:
+            return [("built with `background_rotation` the roller puts its archives elsewhere than the default build: %r vs %r"
+                     % (vc.jsonable(bg)[1] if isinstance(bg, list) and len(bg) == 2 else g[:200], vc.jsonable(sync)[1]),
+                     {"case_line": ln, "case_description": describe(cases_[i]) if "describe" in globals() else None})]
+    ctx.setdefault("xcheck", {})["roller_cases_on_the_background_rotation_build"] = compared
+    return []
